@@ -164,3 +164,13 @@ NOT_APPLICABLE = {
            "at run time; no executable Gallina model can exhibit a use-after-free or a leak, and the crate is a staticlib "
            "that cannot be linked into the harness (DESIGN.md §10).",
 }
+
+# per-property configuration added later lives in tools/props_d/<ID>.py (one file per property, so that
+# independent work does not collide); each file is executed with PROPS / NOT_APPLICABLE / HIST_RULE /
+# STORE_RULE in scope and adds its entry: PROPS["Cxx"] = dict(...)
+import glob as _glob
+import os as _os
+for _f in sorted(_glob.glob(_os.path.join(_os.path.dirname(_os.path.abspath(__file__)), "props_d", "*.py"))):
+    exec(compile(open(_f).read(), _f, "exec"), {"PROPS": PROPS, "NOT_APPLICABLE": NOT_APPLICABLE,
+                                                "HIST_RULE": HIST_RULE, "STORE_RULE": STORE_RULE,
+                                                "FAMILY_SHARDS": FAMILY_SHARDS})
